@@ -394,7 +394,10 @@ def _collect_colon_trivia(
             continue
         if not (colon_node.end_byte <= child.start_byte < body_node.start_byte):
             continue
-        if child.start_point.row == colon_node.end_point.row:
+        if (
+            child.start_point.row == colon_node.end_point.row
+            and inline_comment_node is None
+        ):
             after_colon_comment = Comment.from_cst(child)
             inline_comment_node = child
         else:
